@@ -13,7 +13,7 @@
 (*         nid (persistent node identities), pre / post (node.state_sets   *)
 (*         per node before / after), m, gm, w, bylist, api, score, bychar, *)
 (*         raised, and fresh = the same call on a freshly built copy       *)
-(*  Move   Reroot / Rotate / UpPass between calls: g, nid, pre (before),   *)
+(*  Move   Reroot / RerootNode / Rotate / Prune / UpPass between calls: g, nid, pre (before),   *)
 (*         g2, nid2, post (after); no property clause, only the chain      *)
 (* A matrix is logged as symbols: [type, fund, gap, missing, amb, rows];   *)
 (* for type "dna" the IUPAC table below (the documented meaning of the     *)
@@ -26,6 +26,9 @@
 (*  C16.Pure              same value as the same call on a fresh copy      *)
 (*  C16.RootInvariant     fresh copies of two rootings / child orders of   *)
 (*                        the same unrooted tree score the same            *)
+(* A rooting is a bifurcating seed node or a trifurcating one (the unrooted *)
+(* form of a fully bifurcating tree); the matrix may have rows for taxa    *)
+(* that are not on the tree (the minimum is over the tree's leaves).       *)
 (* class = call site and input shape (api, gap treatment, state of the     *)
 (* cache the call found on the leaves).  Verdicts whose clause starts with *)
 (* "drift." are counted by the driver and never fail a check.              *)
@@ -85,25 +88,16 @@ Against(exp, c, cls) ==
       \o (IF c.bylist /\ SumSeq(c.bychar) # c.score THEN V("C16.PerCharacterSum", cls) ELSE None)
 
 \* ------------------------------------------------------------------ Table
-\* outside the documented precondition (and the property): an unrooted binary tree held with a trifurcating
-\* seed node.  The code resolves the third child sequentially; compared with the minimum as drift only.
-BasalTri(g) == /\ WFClause(g) = "ok" /\ g.n >= 4 /\ Len(g.kids[g.seed]) = 3 /\ LeafTaxaDistinct(g)
-               /\ \A x \in Nodes(g) \ {g.seed} : Len(g.kids[x]) \in {0, 2}
+RootSuffix(g) == IF Len(g.kids[g.seed]) = 3 THEN ":basal_trifurcation" ELSE ""
 JudgeTable(e) ==
     LET g == e.g  m == AbsMatrix(e.m) IN
-    IF BasalTri(g) /\ MatrixFits(g, m) /\ Tractable(g, m, TRUE) /\ Tractable(g, m, FALSE) THEN
-         LET mcT == MinJudge(g, m, TRUE)  mcF == MinJudge(g, m, FALSE) IN
-         Flatten([i \in 1..Len(e.calls) |->
-            LET c == e.calls[i] IN
-            IF c.raised = "" /\ c.score = SumSeq(Weighted(IF c.gm THEN mcT ELSE mcF, c.w))
-              THEN V("drift.BasalTrifurcation", "equals_minimum") ELSE V("drift.BasalTrifurcation", "differs_from_minimum")])
-    ELSE IF InputClass(g, m, <<>>) # "ok" THEN V("drift.Precondition", InputClass(g, m, <<>>))
+    IF InputClass(g, m, <<>>) # "ok" THEN V("drift.Precondition", InputClass(g, m, <<>>))
     ELSE IF ~(Tractable(g, m, TRUE) /\ Tractable(g, m, FALSE)) THEN V("drift.TooLargeToJudge", "table")
     ELSE LET mcT == MinJudge(g, m, TRUE)  mcF == MinJudge(g, m, FALSE) IN
          Flatten([i \in 1..Len(e.calls) |->
             LET c == e.calls[i] IN
             IF c.w # <<>> /\ Len(c.w) # NChar(m) THEN V("drift.Precondition", "weights_length")
-            ELSE Against(Weighted(IF c.gm THEN mcT ELSE mcF, c.w), c, "fresh:" \o c.api \o ":" \o GapName(c.gm))])
+            ELSE Against(Weighted(IF c.gm THEN mcT ELSE mcF, c.w), c, "fresh:" \o c.api \o ":" \o GapName(c.gm) \o RootSuffix(g))])
 
 \* ------------------------------------------------------------------ Score (inside a history)
 LeafCacheClass(g, cache, m, gm) ==
@@ -118,7 +112,7 @@ JudgeScore(e) ==
     ELSE LET cache == IF e.attr = "" THEN NoCache(g) ELSE CacheOf(e.pre)
              lc == LeafCacheClass(g, cache, m, e.gm)
              shipped == ScoreOp(g, cache, m, e.w, e.gm, TRUE)
-             cls == IF lc # "stale_leaf_cache" THEN lc \o ":" \o e.api \o ":" \o GapName(e.gm)
+             cls == IF lc # "stale_leaf_cache" THEN lc \o ":" \o e.api \o ":" \o GapName(e.gm) \o RootSuffix(g)
                     ELSE IF e.raised # "" THEN lc
                     ELSE IF SameResult(e, shipped) THEN lc \o ":score_of_cached_sets"
                     ELSE lc \o ":other:" \o e.api
@@ -127,7 +121,7 @@ JudgeScore(e) ==
          IN Against(exp, e, cls)
             \o (IF f.raised # e.raised \/ (e.raised = "" /\ ~(f.score = e.score /\ (e.bylist => f.bychar = e.bychar)))
                   THEN V("C16.Pure", cls \o (IF e.raised # "" THEN ":raised:" \o e.raised ELSE "")) ELSE None)
-            \o Against(exp, [f EXCEPT !.bylist = e.bylist], "freshcopy:" \o e.api \o ":" \o GapName(e.gm))
+            \o Against(exp, [f EXCEPT !.bylist = e.bylist], "freshcopy:" \o e.api \o ":" \o GapName(e.gm) \o RootSuffix(g))
             \o (IF e.attr # "" /\ e.raised = "" /\ CacheOf(e.post) # CacheAfter(g, cache, m, e.gm, FALSE)
                   THEN V("drift.CacheAfter", lc) ELSE None)
 
@@ -161,7 +155,7 @@ Judge(i) ==
     CASE e.action = "Table" -> JudgeTable(e)
       [] e.action = "Score" -> Chain(i) \o JudgeScore(e) \o RootInv(i)
       [] e.action = "Move" -> Chain(i)
-           \o (IF TreeClass(e.g) = "ok" /\ TreeClass(e.g2) = "ok" /\ ~SameUnrootedTree(e.g, e.g2)
+           \o (IF e.kind # "Prune" /\ TreeClass(e.g) = "ok" /\ TreeClass(e.g2) = "ok" /\ ~SameUnrootedTree(e.g, e.g2)
                  THEN V("drift.MoveChangedTree", e.kind) ELSE None)
 
 Init == l = 1 /\ bad = <<>>
